@@ -67,6 +67,8 @@ impl SubscriptionHub {
     #[cfg(unix)]
     pub async fn subscribe(&self, topic: &str, push_tx: mpsc::Sender<String>) -> String {
         let id = format!("sub-{}", self.next_id.fetch_add(1, Ordering::Relaxed));
+        #[cfg(feature = "verif-hooks")]
+        verif_sched::point("subscribe:after_id").await;
         self.entries.lock().await.push(Entry {
             id: id.clone(),
             topic: topic.to_string(),
@@ -119,6 +121,8 @@ impl SubscriptionHub {
                 }
             }
         }
+        #[cfg(feature = "verif-hooks")]
+        verif_sched::point("publish:after_fanout").await;
         if !to_prune.is_empty() {
             let mut entries = self.entries.lock().await;
             entries.retain(|e| !to_prune.contains(&e.id));
@@ -135,6 +139,52 @@ impl SubscriptionHub {
     #[allow(dead_code)] // Paired with `len()` for clippy; not called in-tree yet.
     pub async fn is_empty(&self) -> bool {
         self.entries.lock().await.is_empty()
+    }
+}
+
+/// Scheduling points for deterministic interleaving exploration (feature
+/// `verif-hooks`). A point is a no-op unless the current thread installed a
+/// gate; with a gate, the point stays pending while the gate returns `true`.
+#[cfg(feature = "verif-hooks")]
+#[allow(dead_code)]
+pub mod verif_sched {
+    use std::cell::RefCell;
+    use std::future::Future;
+    use std::pin::Pin;
+    use std::task::{Context, Poll};
+
+    type Gate = Box<dyn FnMut(&'static str) -> bool>;
+
+    thread_local! {
+        static GATE: RefCell<Option<Gate>> = const { RefCell::new(None) };
+    }
+
+    /// Install (or remove) this thread's gate.
+    pub fn install(gate: Option<Gate>) {
+        GATE.with(|g| *g.borrow_mut() = gate);
+    }
+
+    pub struct Point(&'static str);
+
+    impl Future for Point {
+        type Output = ();
+
+        fn poll(self: Pin<&mut Self>, cx: &mut Context<'_>) -> Poll<()> {
+            let hold = GATE.with(|g| match g.borrow_mut().as_mut() {
+                Some(f) => f(self.0),
+                None => false,
+            });
+            if hold {
+                cx.waker().wake_by_ref();
+                Poll::Pending
+            } else {
+                Poll::Ready(())
+            }
+        }
+    }
+
+    pub fn point(tag: &'static str) -> Point {
+        Point(tag)
     }
 }
 
